@@ -92,6 +92,9 @@ type Op struct {
 	// body (a retried upload of a changed document: same beginning, different rest)
 	BodyLike  int `json:"bodyLike,omitempty"`
 	SameFirst int `json:"sameFirst,omitempty"`
+	// NoDeadline: the request's context has no deadline (context.Background with a cancel function,
+	// the commonest way to call the API); DeadlineMs is ignored. The application cancels it after 25 s.
+	NoDeadline bool `json:"noDeadline,omitempty"`
 }
 
 // UpBody is the request body of operation i.
@@ -586,6 +589,14 @@ func Run(t *testing.T, sc Scenario, track bool) (tr Trace) {
 		runOp := func(i int, op Op) {
 			r := OpResult{Started: time.Since(start)}
 			ctx, cancel := context.WithTimeout(context.Background(), time.Duration(def(op.DeadlineMs, 30000))*time.Millisecond)
+			if op.NoDeadline {
+				cancel()
+				ctx, cancel = context.WithCancel(context.Background())
+				// (the application gives up after 25 s all the same, by cancelling: a response that was
+				// lost or never produced is otherwise waited for for ever)
+				giveUp := time.AfterFunc(25*time.Second, cancel)
+				defer giveUp.Stop()
+			}
 			if op.Kind != "write" && op.Kind != "observe" {
 				// a one-way write continues block-wise after the call returned, and an observation
 				// re-uses its request: their contexts stay alive until the deadline
